@@ -34,7 +34,10 @@ func vhRich(variant int, optMask cfgFlag) (Stack, *nodeConfig) {
 	} else {
 		cfg.sym = "&"
 	}
-	cfg.enc = [][]string{{"\""}}
+	// a one-character set handed over as a slice with room to spare
+	quote := make([]string, 1, 3)
+	quote[0] = "\""
+	cfg.enc = [][]string{quote}
 	cfg.aux = Auxiliary{"k": 1}
 	cfg.err = errorf("previous error")
 	cfg.lss = func(i, j int) bool { return false }
@@ -231,6 +234,10 @@ func VH_C09_NestedUnderParent(p []int) {
 		parent = Or().Push("p0", vhWrapStack(ro, nondetChoice(4)), "p2")
 	case 1:
 		parent = Or().Push("p0", And().Push(ro), "p2")
+	case 3: // in the first slot, a needless envelope further on
+		parent = Or().Push(ro, And().Push(Or().Push("x", "y")))
+	case 4: // as the expression of a Condition in the first slot
+		parent = Or().Push(Cond("kw", Eq, ro), And().Push(Or().Push("x", "y")))
 	default:
 		parent = Or().Push("p0", Cond("kw", Eq, ro), List().Push("sibling"))
 	}
